@@ -325,6 +325,12 @@ def run(v):
                         terms.append((len(all_recs) - 1, G.gpair(opsg, ob)))
                     except G.Unsupported:
                         pass
+        # degenerate but legal networks the generated histories rarely end in
+        for dname, mk in degenerate().items():
+            counts["degenerate networks"] = counts.get("degenerate networks", 0) + 1
+            d = sweep(mk(), surf, tmp, rng, counts)
+            if d:
+                failures.append((f"{PROP}:{d.split(' changed')[0]}:{dname}", {"what": d + f" (input: {dname})", "degenerate": dname}))
     finally:
         shutil.rmtree(tmp, ignore_errors=True)
     cdir = C.cases_dir(PROP)
@@ -372,6 +378,57 @@ def run(v):
     base.conclude(v, proof, reports, failures, errors)
 
 
+def degenerate():
+    """name -> thunk building a degenerate but legal network"""
+    import xgi
+
+    def nodeless(cls, empty):
+        def mk():
+            H = cls()
+            H.add_edge(empty, idx="void", weight=2)
+            H["name"] = "nodeless"
+            return H
+        return mk
+
+    def edgeless(cls):
+        def mk():
+            H = cls()
+            H.add_nodes_from([("a", {"c": 1}), "b", 3])
+            H["name"] = "edgeless"
+            return H
+        return mk
+
+    def single(cls, e):
+        def mk():
+            H = cls()
+            H.add_node("x", c=1)
+            H.add_edge(e, idx=5, w=1)
+            return H
+        return mk
+
+    def overlap():
+        H = xgi.DiHypergraph()
+        H.add_edge(([1, 2], [2, 3]), idx="o", w=1)
+        H.add_edge(([3], [3]), idx="loop")
+        return H
+
+    def all_equal():
+        H = xgi.Hypergraph()
+        H.add_edges_from([[1, 2, 3], [1, 2, 3], [3, 2, 1]])
+        return H
+    return {
+        "Hypergraph without nodes, with an empty edge and a network attribute": nodeless(xgi.Hypergraph, []),
+        "DiHypergraph without nodes, with an empty edge and a network attribute": nodeless(xgi.DiHypergraph, ([], [])),
+        "Hypergraph with nodes and no edge": edgeless(xgi.Hypergraph),
+        "DiHypergraph with nodes and no edge": edgeless(xgi.DiHypergraph),
+        "SimplicialComplex with nodes and no simplex": edgeless(xgi.SimplicialComplex),
+        "Hypergraph with one node in one singleton edge": single(xgi.Hypergraph, ["x"]),
+        "SimplicialComplex with one node in one singleton simplex": single(xgi.SimplicialComplex, ["x"]),
+        "DiHypergraph whose tails and heads overlap": overlap,
+        "Hypergraph whose edges are all equal": all_equal,
+    }
+
+
 def enrich(H):
     """a copy of H with tuple-valued and nested attribute values on a node, an edge and the network"""
     H2 = H.copy()
@@ -385,6 +442,14 @@ def enrich(H):
 
 def replay(payload):
     d = payload.get("detail", payload)
+    if d.get("degenerate"):
+        tmp = tempfile.mkdtemp(prefix="xgi_c08_")
+        try:
+            dsc = sweep(degenerate()[d["degenerate"]](), api_surface.surface(), tmp, random.Random(0), {})
+        finally:
+            shutil.rmtree(tmp, ignore_errors=True)
+        print("oracle:", dsc or "holds", f"(input: {d['degenerate']})")
+        return 1 if dsc else 0
     ops = HC.unjson(d["history"])
     sim = {"Hypergraph": hgsim, "DiHypergraph": disim, "SimplicialComplex": scsim}[d.get("class", "Hypergraph")]
     r = sim.run_history(ops)
